@@ -27,7 +27,7 @@ def edges_of(r):
 
 
 def replay_obj(path, upto):
-    return {"buf": path["init"]["buf"], "steps": [{k: v for k, v in s["act"].items() if k in ("name", "n", "t", "v")}
+    return {"buf": path["init"]["buf"], "spare": path["init"]["spare"], "steps": [{k: v for k, v in s["act"].items() if k in ("name", "n", "t", "v")}
                                                    for s in path["steps"][:upto + 1]]}
 
 
@@ -147,7 +147,7 @@ def run(ctx):
         if ncov != len({(vf.canon(e["from"]), vf.canon(e["act"]), vf.canon(e["to"])) for e in edges}):
             ctx.infra("%s: cover reached %d edges only" % (what, ncov))
         ctx.log("%s cover: %d paths, %d steps, %d edges" % (what, len(paths), sum(len(p["steps"]) for p in paths), ncov))
-        inp = {"paths": [{"buf": p["init"]["buf"], "steps": [{k: v for k, v in s["act"].items() if k in ("name", "n", "t", "v")}
+        inp = {"paths": [{"buf": p["init"]["buf"], "spare": p["init"]["spare"], "steps": [{k: v for k, v in s["act"].items() if k in ("name", "n", "t", "v")}
                                                                for s in p["steps"]]} for p in paths]}
         res = cd.run_harness(ctx, binary, "TestVerifZCReplay", inp, "zc-" + what)
         if res is None:
@@ -162,6 +162,12 @@ def run(ctx):
             ops_seen.add(s["act"]["name"] if s["act"]["name"] != "Write" else "Write" + s["act"]["t"])
             if s["act"]["name"] == "Write":
                 check_write(ctx, p, o["s"], s["act"], s["to"], o)
+            elif s["act"]["name"] in ("SinkReset", "SinkBackUp"):
+                if o.get("panic"):
+                    ctx.violation("%s:panic" % s["act"]["name"], o["panic"], replay_obj(p, o["s"]))
+                elif (o.get("sink") or []) != s["to"]["sink"]:
+                    ctx.violation("%s:bytes" % s["act"]["name"], {"real": cd.hx(o.get("sink") or []), "model": cd.hx(s["to"]["sink"])},
+                                  replay_obj(p, o["s"]))
             else:
                 check_read(ctx, p, o["s"], s["act"], o, drift)
         stats["paths"] += len(paths)
@@ -171,7 +177,7 @@ def run(ctx):
                                 "calls": [[s["act"]["name"], s["act"].get("n", 0)] for s in paths[len(paths) // 2]["steps"][:6]]})
     required = {"NextByte", "NextBool", "NextUint16", "NextUint32", "NextUint64", "NextVarUint", "NextVarBytes", "NextString",
                 "NextAddress", "NextHash", "NextI128", "NextBytes", "Skip", "BackUp", "ReadVarBytes", "ReadVarUint",
-                "WriteVarUint", "WriteVarBytes", "WriteBool", "WriteUint64", "WriteAddress", "WriteHash"}
+                "WriteVarUint", "WriteVarBytes", "WriteBool", "WriteUint64", "WriteAddress", "WriteHash", "SinkReset", "SinkBackUp"}
     if binary and required - ops_seen:
         ctx.infra("vacuous: calls never replayed: %s" % sorted(required - ops_seen))
     if drift:
@@ -203,6 +209,7 @@ def run(ctx):
     }, ["byte counts >= 2^24 are one model value HUGE; the harness tries 8 concrete counts for it (2^24 .. 2^64-1, including the "
         "ones that overflow off+n) and requires one common outcome",
         "BackUp(n) is offered only within its documented contract n <= off",
+        "sinks are fresh or created over 48 stale bytes (0xFF / 0x02), and reused after Reset() / BackUp(last item); every Write* call is replayed on each",
         "values returned together with an eof/irregular indication are compared as model drift (exit 2), not as property violations",
         "legacy common/serialization readers are modelled as coded (named deviation LegacyMinimalCheck = FALSE)"])
 
